@@ -254,12 +254,12 @@ func (s *ManagedServer) AddCredential(username string, uPSK []byte) error {
 		uPSKHash: uPSKHash,
 	}
 	s.cachedCredMap[username] = uc
-	s.cachedUserLookupMap[uc.uPSKHash] = c
+	s.cachedUserLookupMap[uPSKHash] = c
+	s.updateProdULM(func(ulm ss2022.UserLookupMap) {
+		ulm[uPSKHash] = c
+	})
 	s.mu.Unlock()
 	s.enqueueSave()
-	s.updateProdULM(func(ulm ss2022.UserLookupMap) {
-		ulm[uc.uPSKHash] = c
-	})
 	return nil
 }
 
@@ -292,13 +292,13 @@ func (s *ManagedServer) UpdateCredential(username string, uPSK []byte) error {
 	uc.uPSK = uPSK
 	uc.uPSKHash = newUPSKHash
 	delete(s.cachedUserLookupMap, oldUPSKHash)
-	s.cachedUserLookupMap[uc.uPSKHash] = c
-	s.mu.Unlock()
-	s.enqueueSave()
+	s.cachedUserLookupMap[newUPSKHash] = c
 	s.updateProdULM(func(ulm ss2022.UserLookupMap) {
 		delete(ulm, oldUPSKHash)
-		ulm[uc.uPSKHash] = c
+		ulm[newUPSKHash] = c
 	})
+	s.mu.Unlock()
+	s.enqueueSave()
 	return nil
 }
 
@@ -310,26 +310,30 @@ func (s *ManagedServer) DeleteCredential(username string) error {
 		s.mu.Unlock()
 		return fmt.Errorf("%w: %s", ErrNonexistentUser, username)
 	}
+	uPSKHash := uc.uPSKHash
 	delete(s.cachedCredMap, username)
-	delete(s.cachedUserLookupMap, uc.uPSKHash)
+	delete(s.cachedUserLookupMap, uPSKHash)
+	s.updateProdULM(func(ulm ss2022.UserLookupMap) {
+		delete(ulm, uPSKHash)
+	})
 	s.mu.Unlock()
 	s.enqueueSave()
-	s.updateProdULM(func(ulm ss2022.UserLookupMap) {
-		delete(ulm, uc.uPSKHash)
-	})
 	return nil
 }
 
 // LoadFromFile loads credentials from the configured credential file
 // and applies the changes to the associated credential stores.
 func (s *ManagedServer) LoadFromFile() error {
+	// The file is read with the lock held, so that a save cannot slip in between
+	// reading the file and applying its content.
+	s.mu.Lock()
 	content, close, err := mmap.ReadFile[string](s.path)
 	if err != nil {
+		s.mu.Unlock()
 		return err
 	}
 	defer close()
 
-	s.mu.Lock()
 	// Skip if the file content is unchanged.
 	if content == s.cachedContent {
 		s.mu.Unlock()
@@ -372,14 +376,14 @@ func (s *ManagedServer) LoadFromFile() error {
 	s.cachedContent = strings.Clone(content)
 	s.cachedUserLookupMap = userLookupMap
 	s.cachedCredMap = credMap
-	s.mu.Unlock()
 
 	if s.tcp != nil {
-		s.tcp.ReplaceUserLookupMap(maps.Clone(s.cachedUserLookupMap))
+		s.tcp.ReplaceUserLookupMap(maps.Clone(userLookupMap))
 	}
 	if s.udp != nil {
-		s.udp.ReplaceUserLookupMap(maps.Clone(s.cachedUserLookupMap))
+		s.udp.ReplaceUserLookupMap(maps.Clone(userLookupMap))
 	}
+	s.mu.Unlock()
 
 	return nil
 }
